@@ -414,3 +414,39 @@ func isParamOf(info *types.Info, lit *ast.FuncLit, x ast.Expr) bool {
 	}
 	return false
 }
+
+// nonConstFormatCalls lists the calls of fmt.Errorf/Sprintf/Printf/Fprintf/Sprint-style *f functions in f whose
+// format argument is not a constant and that pass no further arguments: the text is interpreted as a format.
+func nonConstFormatCalls(f *eng.Func) []*ast.CallExpr {
+	var out []*ast.CallExpr
+	if f.Decl.Body == nil {
+		return nil
+	}
+	info := f.Pkg.TypesInfo
+	ast.Inspect(f.Decl.Body, func(n ast.Node) bool {
+		call, ok := n.(*ast.CallExpr)
+		if !ok {
+			return true
+		}
+		fn, ok := eng.CalleeOf(info, call).(*types.Func)
+		if !ok || fn.Pkg() == nil || fn.Pkg().Path() != "fmt" {
+			return true
+		}
+		idx := -1
+		switch fn.Name() {
+		case "Errorf", "Sprintf", "Printf":
+			idx = 0
+		case "Fprintf", "Appendf":
+			idx = 1
+		}
+		if idx < 0 || len(call.Args) != idx+1 {
+			return true
+		}
+		if tv, has := info.Types[call.Args[idx]]; has && tv.Value != nil {
+			return true
+		}
+		out = append(out, call)
+		return true
+	})
+	return out
+}
